@@ -25,6 +25,22 @@ def run(ctx):
         key = "%s/%s/%s" % (ev.get("ev"), ev.get("kind"), ev.get("path"))
         ctx.violation(key + ":" + json.dumps(ev.get("v", ev.get("b"))),
                       "number codec event rejected by Numbers.tla", d)
+    sweep = None
+    if not quick:
+        # exhaustive: all 2^32 float32 patterns through the three float encoders, all 2^30 four-byte patterns
+        # through the decoders, summarised into runs by the harness and judged run by run (TV_Numbers: JudgeRun)
+        p2, _ = ctx.run_harness(["sweep-c08", "-out", ctx.tmp, "-shards", "64"], timeout=3400)
+        sweep = json.loads([l for l in p2.stdout.splitlines() if l.startswith("@@SUMMARY ")][-1][10:])
+        for k in ("real", "coordinate", "zeroToOne"):
+            if sweep["covered"].get(k) != 2 ** 32:
+                raise vlib.Broken("sweep covered %s of 2^32 patterns for %s" % (sweep["covered"].get(k), k))
+        sfiles = sorted(glob.glob(os.path.join(ctx.tmp, "c08sweep.*.ndjson")))
+        sevents, sdiags, _ = vlib.tv_shards(ctx, "TV_Numbers", "TV_Numbers", sfiles)
+        for d in sdiags:
+            ev = d.get("ev", {})
+            ctx.violation("sweep:%s:%s:%s" % (ev.get("ev"), ev.get("kind"), json.dumps(ev.get("lo", ev.get("v")))),
+                          "exhaustive sweep event rejected by Numbers.tla", d)
+        events += sevents
     mc = ctx.mc[-1]
     cov = dict(states=mc["distinct"], transitions=max(1, mc["generated"]),
                traces_validated_against_impl=events,
@@ -32,10 +48,16 @@ def run(ctx):
                evaluations=events, distinct_nontrivial=summ["floats"] + summ["patterns"],
                rule="distinct float32 bit patterns + distinct byte patterns driven; an event is one "
                     "(path, value|bytes) observation of the real code judged by TV_Numbers.tla",
-               per_path_events=summ["counts"], exhaustive=False,
+               per_path_events=summ["counts"], exhaustive=bool(sweep), sweep=sweep,
+               trusted_base=["TLC", "harness run-length summariser of sweep-c08 (signature + merging of aligned 4-pattern blocks)",
+                             "verif-tagged raw codec wrappers"],
                explanation="every 1-byte pattern, %s 2-byte patterns, every sign/exponent with boundary "
                            "mantissas (+-4 ulp neighbourhoods), the 1/64 and 1/15120 grids, random patterns"
                            % ("every third" if quick else "all 16384"))
+    if sweep:
+        cov["explanation"] += ("; thorough: ALL 2^32 float32 patterns x {real, coordinate, zero-to-one} encoders and all 2^30 "
+                               "four-byte patterns x decoders, summarised into %d runs + %d individually judged patterns"
+                               % (sum(sweep["runs"].values()), sum(sweep["points"].values())))
     return vlib.finish(ctx, "model_checking", cov, [
         "harness slices instruction bytes at fixed offsets only; all judging is in TV_Numbers.tla",
         "NaN payloads compared as a class (non-finite), per the property",
